@@ -5,8 +5,8 @@ import warnings
 from common import impl_error
 
 PROP = "C13"
-MODULES = ["C13"]
-GEN = ["Ipsc"]
+MODULES = ["C13", "C13t"]
+GEN = ["Ipsc", "TranslIpsc", "TranslBitsBytes"]
 MATCHERS = {}
 
 # member orders of tools/extract_ipsc.py (indices on the line protocol)
@@ -2142,6 +2142,87 @@ def ENTRY_POINTS():
     ]
 
 
+def run_transl(ctx):
+    """Differential validation of the source translator (tools/py2lean.py, py2lean_arr.py, py2lean_rec.py) and its preludes, trusted
+    base of Props/C13t: `HyteraIPSC.from_ipsc_bytes` / `as_ipsc_bytes` TRANSLATED from the source (`Gen/TranslIpsc.lean`, driver
+    operations `t.ip.*`) and the helpers of `Gen/TranslBitsBytes.lean` (`t.bb.*`) against the real code: frames of 72 octets with
+    member / non-member values in every enum field, buffers of other lengths (0..100: slices clamp), decode + re-serialise, and
+    objects built with boundary values (sequence 255 / 256 / -1, colour 15 / 16, ids 2^24 - 1 / 2^24, payload and reserved
+    attributes of other lengths).  A difference is a translator or prelude bug, never a finding about /repo."""
+    if ctx.search_only or not ctx.driver_ok:
+        return
+    from okdmr.dmrlib.hytera.hytera_ipsc import HyteraIPSC as _H
+    from okdmr.dmrlib.hytera.ipsc_elements.call_type import CallType as _CT
+    from okdmr.dmrlib.hytera.ipsc_elements.frame_type import FrameType as _FT
+    from okdmr.dmrlib.hytera.ipsc_elements.packet_type import PacketType as _PT
+    from okdmr.dmrlib.hytera.ipsc_elements.slot_type import SlotType as _ST
+    from okdmr.dmrlib.hytera.ipsc_elements.timeslot import Timeslot as _TS
+    from okdmr.dmrlib.utils.bits_bytes import byteswap_bytes as _sw, half_byte_to_bytes as _hb
+    rng = ctx.rng
+
+    def hx(b):
+        return bytes(b).hex() if len(b) else "-"
+
+    def idx(m):
+        return list(type(m)).index(m)
+
+    def sobj(o):
+        return " ".join([str(idx(o.call_type)), str(idx(o.frame_type)), str(idx(o.packet_type)), str(idx(o.slot_type)), str(idx(o.timeslot)),
+                         str(o.sequence_number), str(o.color_code), hx(o.payload), str(o.destination_radio_id), str(o.source_radio_id),
+                         hx(o.first_header), hx(o.second_header), hx(o.reserved_3), hx(o.reserved_7a), hx(o.reserved_2a), hx(o.reserved_2b),
+                         hx(o.reserved_1), hx(o.payload_pad)])
+
+    def res(f):
+        try:
+            with warnings.catch_warnings():
+                warnings.simplefilter("ignore")
+                return f()
+        except Exception as e:  # noqa
+            return impl_error(e)
+
+    def rb(n):
+        return bytes(rng.randrange(256) for _ in range(n))
+
+    def frame(valid):
+        n = rng.choice([72] * 6 + [0, 1, 10, 40, 71, 73, 100])
+        d = bytearray(rb(n))
+        if valid and n >= 72:
+            d[8] = rng.choice([65, 66, 67, 1, rng.randrange(256)])
+            d[16:18] = rng.choice([4369, 8738]).to_bytes(2, "little")
+            d[18:20] = rng.choice([m.value for m in _ST]).to_bytes(2, "little")
+            d[22:24] = rng.choice([m.value for m in _FT] + [rng.randrange(65536)]).to_bytes(2, "little")
+            d[62] = rng.choice([0, 1, 2, 12])
+        return bytes(d)
+
+    pairs = []
+    for _ in range(ctx.budget(600, 6000)):
+        d = frame(rng.random() < 0.8)
+        pairs.append(("t.ip.from " + hx(d), res(lambda: sobj(_H.from_ipsc_bytes(d)))))
+        pairs.append(("t.ip.ser " + hx(d), res(lambda: hx(_H.from_ipsc_bytes(d).as_ipsc_bytes()))))
+        ctx.count("transl:from_ipsc_bytes")
+        ctx.count("transl:as_ipsc_bytes")
+    for _ in range(ctx.budget(300, 3000)):
+        o = _H(call_type=rng.choice(list(_CT)), frame_type=rng.choice(list(_FT)), packet_type=rng.choice(list(_PT)),
+               slot_type=rng.choice(list(_ST)), timeslot=rng.choice(list(_TS)),
+               sequence_number=rng.choice([0, 1, 255, 256, -1, rng.randrange(256)]), color_code=rng.choice([0, 1, 15, 16, -1, rng.randrange(16)]),
+               destination_radio_id=rng.choice([0, 1, 2 ** 24 - 1, 2 ** 24, -1, rng.randrange(2 ** 24)]),
+               source_radio_id=rng.choice([0, 2 ** 24 - 1, 2 ** 24, rng.randrange(2 ** 24)]), payload=rb(rng.choice([33, 33, 33, 0, 1, 32, 34, 40])))
+        o.payload_pad = rb(rng.choice([1, 1, 0, 2]))
+        for a, k in (("first_header", 2), ("second_header", 2), ("reserved_3", 3), ("reserved_7a", 7), ("reserved_2a", 2), ("reserved_2b", 2), ("reserved_1", 1)):
+            if rng.random() < 0.5:
+                setattr(o, a, rb(rng.choice([k, k, 0, k + 2, k - 1])))
+        pairs.append(("t.ip.as " + sobj(o), res(lambda: hx(o.as_ipsc_bytes()))))
+        ctx.count("transl:as_ipsc_bytes")
+    for n in list(range(0, 12)) + [33, 34, 35]:
+        d = rb(n)
+        pairs.append(("t.bb.swap " + hx(d), res(lambda: hx(_sw(d)))))
+        ctx.count("transl:byteswap_bytes")
+    for h in range(-1, 18):
+        pairs.append((f"t.bb.half1 {h}", res(lambda: hx(_hb(h)))))
+        ctx.count("transl:half_byte_to_bytes")
+    ctx.correspond("transl", pairs)
+
+
 def run(ctx):
     patch_burst()
     del AMBIENT_SAMPLE[:]
@@ -2193,6 +2274,12 @@ def run(ctx):
         "failing ones) decoding the captured frames and every ninth in-range relation frame by both decoders, same verdict. "
         "Distinct = distinct frame octets / distinct histories."
     )
+    ctx.trusted_base += [
+        "tools/py2lean.py + py2lean_arr.py + py2lean_rec.py + extract_transl.py (source translator: Gen/TranslIpsc.lean, Gen/TranslBitsBytes.lean from inspect.getsource of "
+        "HyteraIPSC.from_ipsc_bytes / as_ipsc_bytes / __init__, byteswap_bytes, half_byte_to_bytes) and lean/DmrVerif/Model/Py.lean, PyArr.lean, PyRec.lean; validated on every "
+        "run by t.ip.* / t.bb.* (run_transl); Props/C13t proves the translated definitions equal to Model/Ipsc.lean",
+    ]
+    run_transl(ctx)
     ctx.trusted_base += [
         "Lean 4.33 kernel",
         "tools/extract_ipsc.py (calls the five IPSC enumerations on all 2^8 / 2^16 values, is_vocoder and is_wakeup on all members)",
